@@ -1,6 +1,7 @@
 package num
 
 import (
+	"encoding/json"
 	"errors"
 	"fmt"
 	"math"
@@ -375,11 +376,16 @@ func (a *Amount) UnmarshalJSON(value []byte) error {
 }
 
 func unquote(value []byte) []byte {
-	// If the amount is quoted, strip the quotes
-	if len(value) > 2 && value[0] == '"' && value[len(value)-1] == '"' {
-		value = value[1 : len(value)-1]
+	// If the amount is quoted, use the contents of the string: decoding it,
+	// as opposed to just stripping the quotes, deals with escaped characters.
+	var s string
+	if err := json.Unmarshal(value, &s); err != nil {
+		return value // not a string, e.g. a plain number
 	}
-	return value
+	if s == "" {
+		return value // nothing inside the quotes (or null)
+	}
+	return []byte(s)
 }
 
 func rescaleAmountPair(a, a2 Amount) (Amount, Amount) {
